@@ -25,7 +25,9 @@
 (*   "ignore_maxpkt" | "over_ack" | "thresh_lt" | "eof_twice" |                  *)
 (*   "no_close_answer" | "no_unlink" | "early_return" | "no_flush" (HoldBack:     *)
 (*   the last in-flight sender forgets the queued EOF/CLOSE) | "wait_window_only" *)
-(*   (the window wait re-tests only the window, so a close wakes nobody)           *)
+(*   (the window wait re-tests only the window, so a close wakes nobody) |         *)
+(*   "no_exit_recheck" (a sender woken by a window adjust allocates window without  *)
+(*   re-checking closed / eof_sent)                                                 *)
 EXTENDS Naturals, Sequences, FiniteSets, TLC
 
 CONSTANTS UsersA, UsersB,   \* user threads of each side (strings)
@@ -204,10 +206,15 @@ SendEntry(t) ==
 \* _wait_for_send_window leaves on window > 0 or closed (eof_sent alone wakes nobody: it is seen after the next wake-up)
 WakeCond(t)  == outwin[Side(t)] > 0 \/ closed[Side(t)]
 WakeGuard(t) == IF Mut = "wait_window_only" THEN outwin[Side(t)] > 0 ELSE WakeCond(t)
+\* the woken sender, still under the lock: window still 0 -> the check inside the loop (closed: return 0);
+\* window open -> it leaves the loop and RE-CHECKS closed / eof_sent before allocating (channel.py: "we have some window
+\* to squeeze into" / if self.closed or self.eof_sent: return 0).  Mut = "no_exit_recheck" drops that re-check.
+ExitRecheck(X) == Mut # "no_exit_recheck" /\ (closed[X] \/ eofSent[X])
 SendWake(t) ==
   LET X == Side(t) IN
   /\ pc[t] = "send_wait" /\ WakeGuard(t)
-  /\ IF closed[X] \/ eofSent[X] THEN SendReturns0(t) ELSE SendReserve(t)
+  /\ IF outwin[X] = 0 THEN SendReturns0(t)
+     ELSE IF ExitRecheck(X) THEN SendReturns0(t) ELSE SendReserve(t)
 
 SendTimer(t) ==         \* the timed wait expires: socket.timeout
   /\ pc[t] = "send_wait" /\ tmo[Side(t)] = "timed" /\ SendRaise(t)
